@@ -475,11 +475,12 @@ Fixpoint gstmt_ind2 (P : gstmt -> Prop)
          (He : forall c, P (SExpr c)) (Hd : forall c, P (SDefer c))
          (Ha : forall l r, P (SAssign l r)) (Hr : forall rs, P (SReturn rs))
          (Hi : forall b e, Forall P b -> Forall P e -> P (SIf b e))
-         (Hb : forall b, Forall P b -> P (SBlock b)) (s : gstmt) : P s :=
+         (Hb : forall b, Forall P b -> P (SBlock b))
+         (Hl : forall c b, Forall P b -> P (SCallLit c b)) (s : gstmt) : P s :=
   let all := fix all (l : list gstmt) : Forall P l :=
                match l with
                | [] => Forall_nil P
-               | x :: r => Forall_cons x (gstmt_ind2 P He Hd Ha Hr Hi Hb x) (all r)
+               | x :: r => Forall_cons x (gstmt_ind2 P He Hd Ha Hr Hi Hb Hl x) (all r)
                end in
   match s with
   | SExpr c => He c
@@ -488,6 +489,7 @@ Fixpoint gstmt_ind2 (P : gstmt -> Prop)
   | SReturn rs => Hr rs
   | SIf b e => Hi b e (all b) (all e)
   | SBlock b => Hb b (all b)
+  | SCallLit c b => Hl c b (all b)
   end.
 
 Definition fn_ident_b (f : string) : bool :=
@@ -503,6 +505,10 @@ Definition ret_plain_b (e : gexpr) : bool :=
 
 (* a selector call statement names its function by an identifier other than func / type;
    a returned call has no selector among its arguments -- at every nesting depth *)
+(* directly inside a function literal: no defer of a selector call (the code files it twice, D-C20-lit-defer) *)
+Definition lit_quiet_b (s : gstmt) : bool :=
+  match s with SDefer d => String.eqb (gc_x d) "" | _ => true end.
+
 Fixpoint stmt_plain_b (s : gstmt) : bool :=
   let all := fix all (l : list gstmt) : bool :=
                match l with [] => true | x :: r => stmt_plain_b x && all r end in
@@ -513,6 +519,7 @@ Fixpoint stmt_plain_b (s : gstmt) : bool :=
   | SReturn rs => forallb ret_plain_b rs
   | SIf b e => all b && all e
   | SBlock b => all b
+  | SCallLit c b => call_plain_b c && all b && forallb lit_quiet_b b
   end.
 
 Definition decl_plain_b (d : gdecl) : bool :=
@@ -526,6 +533,30 @@ Lemma stmt_calls_if : forall b e, stmt_calls (SIf b e) = flat_map stmt_calls b +
 Proof. reflexivity. Qed.
 Lemma stmt_calls_block : forall b, stmt_calls (SBlock b) = flat_map stmt_calls b.
 Proof. reflexivity. Qed.
+Lemma stmt_plain_lit : forall c b,
+    stmt_plain_b (SCallLit c b) = call_plain_b c && forallb stmt_plain_b b && forallb lit_quiet_b b.
+Proof. reflexivity. Qed.
+Lemma stmt_calls_lit : forall c b, stmt_calls (SCallLit c b) = flat_map stmt_calls b ++ sel_call c.
+Proof. reflexivity. Qed.
+
+(* the walk over the statements of a function literal (the local fixpoint of stmt_step) *)
+Fixpoint lit_steps (sc : list (string * string)) (imps : list (string * string)) (ps : list p3)
+         (pk : string) (lv : list (string * string)) (l : list gstmt) (cs : list ocall) : list ocall :=
+  match l with
+  | [] => cs
+  | x :: r => lit_steps sc imps ps pk lv r (refile (stmt_result sc pk imps ps lv x) (snd (stmt_step sc pk imps ps x (lv, cs))))
+  end.
+
+Lemma stmt_step_lit : forall sc pkg imps ps c b acc,
+    stmt_step sc pkg imps ps (SCallLit c b) acc =
+    (fst acc, lit_steps sc imps ps (oc_pkg (build_call sc pkg imps ps (fst acc) c)) (fst acc) b (snd acc)
+              ++ [build_call sc pkg imps ps (fst acc) c]).
+Proof.
+  intros. cbn [stmt_step]. f_equal. f_equal.
+  generalize (oc_pkg (build_call sc pkg imps ps (fst acc) c)) as pk.
+  generalize (fst acc) as lv. generalize (snd acc) as cs.
+  induction b as [|x r IH]; intros cs lv pk; [reflexivity|]. cbn [lit_steps]. rewrite <- IH. reflexivity.
+Qed.
 
 Definition scope_kinds (sc : list (string * string)) : Prop :=
   forall n k, mget sc n = Some k -> k = "func" \/ k = "type".
@@ -580,14 +611,16 @@ Proof.
 Qed.
 
 Section Calls.
-  Variables (sc : list (string * string)) (pkg : string) (imps : list (string * string)) (ps : list p3).
+  Variables (sc : list (string * string)) (imps : list (string * string)) (ps : list p3).
   Hypothesis Hsc : scope_kinds sc.
 
-  Lemma call_pair : forall lv c w,
+  (* the package a call is filed under plays no part in its (receiver, function) pair: the statements of a function
+     literal are walked with ANOTHER current package, so every lemma below holds for every package *)
+  Lemma call_pair : forall pkg lv c w,
       call_plain_b c = true -> fn_ident_b (snd w) = true ->
       count_pair w [pr (build_call sc pkg imps ps lv c)] = count_pair w (sel_call c).
   Proof.
-    intros lv c w Hc Hw. unfold build_call, fun_expr, sel_call.
+    intros pkg lv c w Hc Hw. unfold build_call, fun_expr, sel_call.
     destruct (String.eqb (gc_x c) "") eqn:E.
     - cbv beta iota zeta. transitivity 0; [|reflexivity].
       apply count_pair_zero. intros p [Hp|[]]. subst p. cbn [pr snd oc_fn].
@@ -623,26 +656,61 @@ Section Calls.
   Qed.
 
   Definition pairs_ok (s : gstmt) : Prop :=
-    forall acc w, stmt_plain_b s = true -> fn_ident_b (snd w) = true ->
+    forall pkg acc w, stmt_plain_b s = true -> fn_ident_b (snd w) = true ->
                   count_pair w (map pr (snd (stmt_step sc pkg imps ps s acc))) =
                   count_pair w (map pr (snd acc)) + count_pair w (stmt_calls s).
 
   Lemma stmts_pairs : forall l,
       Forall pairs_ok l ->
-      forall acc w, forallb stmt_plain_b l = true -> fn_ident_b (snd w) = true ->
+      forall pkg acc w, forallb stmt_plain_b l = true -> fn_ident_b (snd w) = true ->
                     count_pair w (map pr (snd (stmts_step sc pkg imps ps l acc))) =
                     count_pair w (map pr (snd acc)) + count_pair w (flat_map stmt_calls l).
   Proof.
-    induction l as [|s l IH]; intros HF acc w Hp Hw.
+    induction l as [|s l IH]; intros HF pkg acc w Hp Hw.
     - cbn. lia.
     - inversion HF as [|? ? Hs Hl]; subst. simpl in Hp. apply andb_true_iff in Hp. destruct Hp as [Hps Hpl].
       unfold stmts_step in *. cbn [fold_left flat_map]. rewrite count_pair_app.
-      rewrite (IH Hl _ w Hpl Hw). rewrite (Hs acc w Hps Hw). lia.
+      rewrite (IH Hl pkg _ w Hpl Hw). rewrite (Hs pkg acc w Hps Hw). lia.
+  Qed.
+
+  (* what is filed a second time inside a literal does not count for a written selector call: a deferred LOCAL call
+     has no selector, a returned call is filed without a function name *)
+  Lemma refile_quiet : forall pk lv x cs w,
+      stmt_plain_b x = true -> lit_quiet_b x = true -> fn_ident_b (snd w) = true ->
+      count_pair w (map pr (refile (stmt_result sc pk imps ps lv x) cs)) = count_pair w (map pr cs).
+  Proof.
+    intros pk lv x cs w Hp Hq Hw. unfold refile.
+    destruct (stmt_result sc pk imps ps lv x) as [c|] eqn:E; [|reflexivity].
+    destruct (String.eqb (oc_node c) ""); [reflexivity|].
+    rewrite map_app, count_pair_app. cbn [map].
+    assert (Z : count_pair w [pr c] = 0); [|lia].
+    destruct x as [c1|d|lhs rhs|rs|b e|b|c1 b]; cbn [stmt_result] in E; try discriminate.
+    - injection E as E. subst c. cbn [stmt_plain_b] in Hp. cbn [lit_quiet_b] in Hq.
+      rewrite (call_pair pk lv d w Hp Hw). unfold sel_call. now rewrite Hq.
+    - cbn [stmt_plain_b] in Hp. apply nth_error_In in E.
+      apply count_pair_zero. intros p [Hp0|[]]. subst p. cbn [pr snd].
+      rewrite (return_calls_fn _ _ _ Hp E). apply fn_ident_not in Hw. intros E0. symmetry in E0. tauto.
+  Qed.
+
+  (* the statements of a function literal: every one starts from the same local variables *)
+  Lemma lit_pairs : forall l,
+      Forall pairs_ok l ->
+      forall pk lv cs w, forallb stmt_plain_b l = true -> forallb lit_quiet_b l = true -> fn_ident_b (snd w) = true ->
+                    count_pair w (map pr (lit_steps sc imps ps pk lv l cs)) =
+                    count_pair w (map pr cs) + count_pair w (flat_map stmt_calls l).
+  Proof.
+    induction l as [|s l IH]; intros HF pk lv cs w Hp Hq Hw.
+    - cbn [lit_steps flat_map]. change (count_pair w []) with 0. lia.
+    - inversion HF as [|? ? Hs Hl]; subst. simpl in Hp. apply andb_true_iff in Hp. destruct Hp as [Hps Hpl].
+      simpl in Hq. apply andb_true_iff in Hq. destruct Hq as [Hqs Hql].
+      cbn [lit_steps flat_map]. rewrite count_pair_app.
+      rewrite (IH Hl pk lv _ w Hpl Hql Hw). rewrite (refile_quiet pk lv s _ w Hps Hqs Hw).
+      rewrite (Hs pk (lv, cs) w Hps Hw). cbn [snd]. lia.
   Qed.
 
   Lemma stmt_pairs : forall s, pairs_ok s.
   Proof.
-    induction s as [c|c|lhs rhs|rs|b e IHb IHe|b IHb] using gstmt_ind2; intros acc w Hs Hw.
+    induction s as [c|c|lhs rhs|rs|b e IHb IHe|b IHb|c b IHb] using gstmt_ind2; intros pkg acc w Hs Hw.
     - cbn [stmt_step snd stmt_calls stmt_plain_b] in *.
       rewrite map_app, count_pair_app. f_equal. cbn [map]. now apply call_pair.
     - cbn [stmt_step snd stmt_calls stmt_plain_b] in *.
@@ -659,13 +727,17 @@ Section Calls.
       rewrite stmt_calls_if, count_pair_app.
       change (stmt_step sc pkg imps ps (SIf b e) acc)
         with (stmts_step sc pkg imps ps e (stmts_step sc pkg imps ps b acc)).
-      rewrite (stmts_pairs e IHe _ w Hse Hw). rewrite (stmts_pairs b IHb acc w Hsb Hw). lia.
+      rewrite (stmts_pairs e IHe pkg _ w Hse Hw). rewrite (stmts_pairs b IHb pkg acc w Hsb Hw). lia.
     - rewrite stmt_plain_block in Hs. rewrite stmt_calls_block.
       change (stmt_step sc pkg imps ps (SBlock b) acc) with (stmts_step sc pkg imps ps b acc).
-      apply (stmts_pairs b IHb acc w Hs Hw).
+      apply (stmts_pairs b IHb pkg acc w Hs Hw).
+    - rewrite stmt_plain_lit in Hs. apply andb_true_iff in Hs. destruct Hs as [Hs Hq].
+      apply andb_true_iff in Hs. destruct Hs as [Hc Hb].
+      rewrite stmt_step_lit, stmt_calls_lit. cbn [snd]. rewrite map_app, !count_pair_app.
+      rewrite (lit_pairs b IHb _ _ _ w Hb Hq Hw). cbn [map]. rewrite (call_pair pkg (fst acc) c w Hc Hw). lia.
   Qed.
 
-  Lemma fold_pairs : forall body acc w,
+  Lemma fold_pairs : forall pkg body acc w,
       forallb stmt_plain_b body = true -> fn_ident_b (snd w) = true ->
       count_pair w (map pr (snd (stmts_step sc pkg imps ps body acc))) =
       count_pair w (map pr (snd acc)) + count_pair w (flat_map stmt_calls body).
@@ -687,7 +759,7 @@ Proof.
                              fn_ident_b (snd w) = true).
   { intros l w HF Hp Hin. apply in_flat_map in Hin. destruct Hin as [s [Hs Hw]].
     rewrite Forall_forall in HF. rewrite forallb_forall in Hp. eapply HF; eauto. }
-  induction s as [c|c|lhs rhs|rs|b e IHb IHe|b IHb] using gstmt_ind2; intros w Hs Hw.
+  induction s as [c|c|lhs rhs|rs|b e IHb IHe|b IHb|c b IHb] using gstmt_ind2; intros w Hs Hw.
   - eapply Hcall; eauto.
   - eapply Hcall; eauto.
   - destruct Hw.
@@ -695,6 +767,9 @@ Proof.
   - rewrite stmt_plain_if in Hs. apply andb_true_iff in Hs. destruct Hs as [Hsb Hse].
     rewrite stmt_calls_if in Hw. apply in_app_or in Hw. destruct Hw as [Hw|Hw]; eauto.
   - rewrite stmt_plain_block in Hs. rewrite stmt_calls_block in Hw. eauto.
+  - rewrite stmt_plain_lit in Hs. apply andb_true_iff in Hs. destruct Hs as [Hs _].
+    apply andb_true_iff in Hs. destruct Hs as [Hc Hb].
+    rewrite stmt_calls_lit in Hw. apply in_app_or in Hw. destruct Hw as [Hw|Hw]; eauto.
 Qed.
 
 Lemma calls_listed_bfun : forall sc pkg imps n ps rs b,
@@ -1643,6 +1718,39 @@ Proof. vm_compute; reflexivity. Qed.
 
 Lemma go_grouped_names_exact : go_verdict ex_grouped (go_front ex_grouped) = [].
 Proof. vm_compute; reflexivity. Qed.
+
+(* a function literal passed as the last argument: its calls, its deferred local call and its nested literal are
+   statements of the function, each selector call listed ONCE and before the call that takes the literal *)
+Definition ex_call_lit : gfile :=
+  mkGFile "demo" [("", "fmt"); ("", "sync")]
+    [DFunc None "Run" [p1 "wg" (TStarSel "sync" "WaitGroup")] []
+           (Some [SCallLit (mkGCall "wg" "Go" [])
+                           [SDefer (mkGCall "" "cleanup" []);
+                            SExpr (mkGCall "fmt" "Println" [AStr "start"]);
+                            SExpr (mkGCall "wg" "Add" [AInt "1"]);
+                            SCallLit (mkGCall "fmt" "Sscan" [AStr "x"]) [SExpr (call0 "wg" "Done")]];
+                  SExpr (call0 "wg" "Wait")])].
+
+Lemma go_call_lit_exact :
+  go_verdict ex_call_lit (go_front ex_call_lit) = [] /\
+  (exists o, go_front ex_call_lit = GOk o /\
+             map (fun fn => map (fun c => (oc_node c, oc_fn c)) (of_calls fn)) (obs_funcs o)
+             = [[("cleanup", ""); ("cleanup", ""); ("fmt", "Println"); ("wg", "Add"); ("wg", "Done"); ("fmt", "Sscan");
+                 ("wg", "Go"); ("wg", "Wait")]]).
+Proof. split; [vm_compute; reflexivity|]. eexists. split; [vm_compute; reflexivity|]. vm_compute. reflexivity. Qed.
+
+(* open finding D-C20-lit-defer: "exactly once" is FALSE of the faithful model for a selector call deferred directly
+   inside a function literal -- BuildCallFromExpr files the call BuildMethodCall has already filed *)
+Definition ex_lit_defer : gfile :=
+  mkGFile "demo" [("", "fmt")]
+    [DFunc None "Run" [] [] (Some [SCallLit (mkGCall "" "each" []) [SDefer (mkGCall "fmt" "Println" [AStr "done"])]])].
+
+Lemma go_lit_defer_refuted :
+  go_verdict ex_lit_defer (go_front ex_lit_defer) = ["go_calls"] /\
+  (exists o, go_front ex_lit_defer = GOk o /\
+             map (fun fn => map (fun c => (oc_node c, oc_fn c)) (of_calls fn)) (obs_funcs o)
+             = [[("fmt", "Println"); ("fmt", "Println"); ("each", "")]]).
+Proof. split; [vm_compute; reflexivity|]. eexists. split; [vm_compute; reflexivity|]. vm_compute. reflexivity. Qed.
 
 Lemma go_call_in_if_exact : go_verdict ex_call_in_if (go_front ex_call_in_if) = [].
 Proof. vm_compute; reflexivity. Qed.
